@@ -220,6 +220,14 @@ Theorem C20_order_respects_dependencies : forall nodes edges l, toposort nodes e
 Proof. exact toposort_respects_dependencies. Qed.
 Print Assumptions C20_order_respects_dependencies.
 
+(* edge templates: exactly one output operator *)
+Theorem C20_edge_template_two_outputs : forall ops, 2 <= count_sinks ops -> check_edge_template ops = Err EPyRates.
+Proof. exact edge_template_two_outputs_rejected. Qed.
+Print Assumptions C20_edge_template_two_outputs.
+Theorem C20_edge_template_ok : forall ops, check_edge_template ops = Ok -> count_sinks ops = 1.
+Proof. exact edge_template_sinks. Qed.
+Print Assumptions C20_edge_template_ok.
+
 (* non-vacuity: supported configurations exist and return; an unsupported one of each guard is refused with the
    class of the guard; a three-operator chain is ordered, the same chain closed to a ring is refused *)
 Example C20_nonvacuous :
